@@ -146,7 +146,7 @@ fn rec_check(own: GameMode, bits: u32, is_err: bool) {
     assert!(is_err, "C07 entry point propagates the conversion error");
 }
 
-//@ obl: id=U9.entry.difficulty harness=u9_entry_difficulty props=C07 tier=quick kind=proof
+//@ obl: id=U9.entry.difficulty harness=u9_entry_difficulty stubs=yes props=C07 tier=quick kind=proof
 //@ fns: Osu::difficulty, Taiko::difficulty, Catch::difficulty, Mania::difficulty (via Difficulty::calculate_for_mode)
 //@ bound: loop-free prefix; convert_ref replaced by a recording stub that fails (so only the call-site contract is checked); all legacy mod bits, any object-free map
 //@ clause: each mode's difficulty() first calls map.convert_ref(<own mode>, difficulty.get_mods()) exactly once and returns its error unchanged
@@ -167,7 +167,7 @@ fn u9_entry_difficulty() {
     rec_check(own, bits, is_err);
 }
 
-//@ obl: id=U9.entry.strains harness=u9_entry_strains props=C07,C16 tier=quick kind=proof
+//@ obl: id=U9.entry.strains harness=u9_entry_strains stubs=yes props=C07,C16 tier=quick kind=proof
 //@ fns: Osu::strains, Taiko::strains, Catch::strains, Mania::strains (via Difficulty::strains_for_mode)
 //@ bound: as U9.entry.difficulty
 //@ clause: each mode's strains() first calls map.convert_ref(<own mode>, difficulty.get_mods()) exactly once and returns its error unchanged (so strains and difficulty are computed on the same conversion)
@@ -188,7 +188,7 @@ fn u9_entry_strains() {
     rec_check(own, bits, is_err);
 }
 
-//@ obl: id=U9.entry.gradual harness=u9_entry_gradual props=C07,C02 tier=quick kind=proof
+//@ obl: id=U9.entry.gradual harness=u9_entry_gradual stubs=yes props=C07,C02 tier=quick kind=proof
 //@ fns: OsuGradualDifficulty::new, TaikoGradualDifficulty::new, CatchGradualDifficulty::new, ManiaGradualDifficulty::new
 //@ bound: as U9.entry.difficulty
 //@ clause: each mode's gradual difficulty constructor first calls map.convert_ref(<own mode>, difficulty.get_mods()) exactly once and returns its error unchanged
